@@ -33,6 +33,12 @@ M = [
     ('task', '_PredecessorsList.append', 'pjplan/task.py', "        self.__parent.predecessors = [v for v in self.__parent.predecessors] + [task]", "        self.__parent.predecessors = [task] + [v for v in self.__parent.predecessors]", 'comes-last'),
     ('task', '_SuccessorsList.remove', 'pjplan/task.py', "        self.__parent.successors = [v for v in self.__parent.successors if v != task]\n        return True", "        self.__parent.successors = [v for v in self.__parent.successors if v != task]\n        return False", 'membership'),
     ('task', '_PredecessorsList.remove', 'pjplan/task.py', "        self.__parent.predecessors = [v for v in self.__parent.predecessors if v != task]", "        self.__parent.predecessors = [v for v in self.__parent.predecessors]", 'without-the-task'),
+    ('closure', 'get_children', 'pjplan/task.py', "                yield ch\n                yield from get_children(ch)", "                yield from get_children(ch)\n                yield ch", 'depth-first'),
+    ('closure', 'get_parent', 'pjplan/task.py', "                yield t\n                yield from get_parent(t.parent)", "                yield t", 'ancestors'),
+    ('closure', 'get_predecessor', 'pjplan/task.py', "            for pr in t.predecessors:\n                yield pr\n                yield from get_predecessor(pr)", "            for pr in t.predecessors:\n                yield from get_predecessor(pr)", 'every-transitive'),
+    ('closure', '_unique_tasks', 'pjplan/task.py', "            m.add(id(t))\n            res.append(t)", "            res.append(t)", 'once'),
+    ('closure', '_check_no_links', 'pjplan/task.py', "            if a in t.predecessors or a in t.successors:", "            if a in t.predecessors:", 'no-task-of-the-subtree'),
+    ('closure', 'Task.parent.getter', 'pjplan/task.py', "        if self.__parent is None or self.__parent.id == EMPTY_TASK_ID:\n            return None", "        if self.__parent is None:\n            return None", 'hidden'),
     ('query', 'search', 'pjplan/task.py', "                    if val is None or not val <= v:", "                    if val is None or not val < v:", 'search-is-true'),
     ('query', 'search', 'pjplan/task.py', '                elif k.endswith("_is_none_"):\n                    k = k[0:-9]', '                elif k.endswith("_is_none_"):\n                    k = k[0:-8]', 'search-is-true'),
     ('query', '__get_task_attribute', 'pjplan/task.py', "        if attribute_name in t.__dict__ or attribute_name in ('estimate', 'spent'):", "        if attribute_name in t.__dict__:", 'public-attribute'),
